@@ -616,6 +616,23 @@ def s6_optic(ctx):
                                  construct=f'Optic.{a} not restored'))
             continue
         v = restored[a]
+        # a local that was bound to the saved value one statement earlier
+        # (polarization = data[...]; PolarizationState.from_dict(polarization)
+        # if isinstance(polarization, dict) else polarization)
+        locs = {st_.targets[0].id: st_.value for st_ in ast.walk(fd.node)
+                if isinstance(st_, ast.Assign) and
+                isinstance(st_.targets[0], ast.Name) and
+                'data[' in unparse(st_.value)}
+
+        class _Inl(ast.NodeTransformer):
+            def visit_Name(self, node):
+                if node.id in locs and isinstance(node.ctx, ast.Load):
+                    import copy as _c
+                    return _c.deepcopy(locs[node.id])
+                return node
+        import copy as _copy
+        v = _Inl().visit(_copy.deepcopy(v))
+        ast.fix_missing_locations(v)
         src = unparse(v)
         if '(optic)' in src and 'data' not in src:
             res.ok(f'Optic.{a} re-derived: {src}')
